@@ -5,16 +5,24 @@ cd "$(dirname "$0")"
 export GOFLAGS=-mod=mod GOPROXY=off
 unset GOTOOLCHAIN GOSUMDB 2>/dev/null || true
 mkdir -p bin _scratch
+# VERIF_REPO: build against another checkout of the repository than /repo (used for background sweeps on a snapshot)
+REPO="${VERIF_REPO:-/repo}"
+MODFLAG=""
+if [ "$REPO" != "/repo" ]; then
+  sed "s#=> /repo\$#=> $REPO#" go.mod > _scratch/alt.mod
+  cp go.sum _scratch/alt.sum
+  MODFLAG="-modfile=$PWD/_scratch/alt.mod"
+fi
 go build -o bin/vinstr ./cmd/vinstr
-bin/vinstr -repo /repo -out _scratch/ov-base -mode base
-go build -tags verif -overlay _scratch/ov-base/overlay.json -o bin/vcheck ./cmd/vcheck
-go build -tags verif -overlay _scratch/ov-base/overlay.json -o bin/vchild ./cmd/vchild
+bin/vinstr -repo $REPO -out _scratch/ov-base -mode base
+go build $MODFLAG -tags verif -overlay _scratch/ov-base/overlay.json -o bin/vcheck ./cmd/vcheck
+go build $MODFLAG -tags verif -overlay _scratch/ov-base/overlay.json -o bin/vchild ./cmd/vchild
 if [ "${1:-all}" = "all" ] || [ "${1:-}" = "C05" ] || [ "${1:-}" = "C18" ]; then
-  bin/vinstr -repo /repo -out _scratch/ov-sched -mode sched
-  go build -tags verif -overlay _scratch/ov-sched/overlay.json -o bin/vsched ./cmd/vcheck
+  bin/vinstr -repo $REPO -out _scratch/ov-sched -mode sched
+  go build $MODFLAG -tags verif -overlay _scratch/ov-sched/overlay.json -o bin/vsched ./cmd/vcheck
 fi
 if [ "${1:-all}" = "all" ] || [ "${1:-}" = "C18" ]; then
-  go build -race -tags verif -overlay _scratch/ov-sched/overlay.json -o bin/vsched-race ./cmd/vcheck
-  bin/vinstr -repo /repo -out _scratch/ov-schedfine -mode schedfine
-  go build -race -tags verif -overlay _scratch/ov-schedfine/overlay.json -o bin/vschedfine-race ./cmd/vcheck
+  go build $MODFLAG -race -tags verif -overlay _scratch/ov-sched/overlay.json -o bin/vsched-race ./cmd/vcheck
+  bin/vinstr -repo $REPO -out _scratch/ov-schedfine -mode schedfine
+  go build $MODFLAG -race -tags verif -overlay _scratch/ov-schedfine/overlay.json -o bin/vschedfine-race ./cmd/vcheck
 fi
